@@ -66,23 +66,23 @@ type c11Mismatch struct {
 }
 
 type c11Report struct {
-	Seed        uint64            `json:"seed"`
-	DBSize      int               `json:"db_size"`
-	Cases       int               `json:"cases"`
-	Excluded    map[string]int    `json:"excluded"`
-	Calls       map[string]int64  `json:"calls"`
-	NonEmpty    int64             `json:"nonempty_results"`
-	Mismatches  []c11Mismatch     `json:"mismatches"`
-	NMismatch   int64             `json:"mismatch_count"`
+	Seed        uint64             `json:"seed"`
+	DBSize      int                `json:"db_size"`
+	Cases       int                `json:"cases"`
+	Excluded    map[string]int     `json:"excluded"`
+	Calls       map[string]int64   `json:"calls"`
+	NonEmpty    int64              `json:"nonempty_results"`
+	Mismatches  []c11Mismatch      `json:"mismatches"`
+	NMismatch   int64              `json:"mismatch_count"`
 	Metrics     map[string]float64 `json:"metrics"`
-	MetricFails []string          `json:"metric_failures"`
-	LruFails    []string          `json:"lru_failures"`
-	Lru         map[string]int64  `json:"lru"`
-	Histories   int               `json:"histories"`
-	Overlapping int               `json:"histories_with_overlap"`
-	Goroutines  int               `json:"goroutines"`
-	GOMAXPROCS  int               `json:"gomaxprocs"`
-	Panics      []string          `json:"panics"`
+	MetricFails []string           `json:"metric_failures"`
+	LruFails    []string           `json:"lru_failures"`
+	Lru         map[string]int64   `json:"lru"`
+	Histories   int                `json:"histories"`
+	Overlapping int                `json:"histories_with_overlap"`
+	Goroutines  int                `json:"goroutines"`
+	GOMAXPROCS  int                `json:"gomaxprocs"`
+	Panics      []string           `json:"panics"`
 }
 
 var c11Words = []string{"list", "files", "directory", "find", "search", "text", "compress", "archive", "extract", "copy",
